@@ -769,7 +769,7 @@ func genHistory(t *rapid.T) history {
 
 func props() []rp.Prop {
 	return []rp.Prop{
-		rp.P[history]{Name: "history", Checks: ev.Pick(6000, 1500000) / ev.Shards(), Gen: genHistory, Check: checkHistory},
+		rp.P[history]{Name: "history", Checks: ev.Pick(6000, 400000) / ev.Shards(), Gen: genHistory, Check: checkHistory},
 		rp.P[overlapCase]{Name: "overlapping-discoveries", Checks: ev.Pick(60, 6000) / ev.Shards(), Gen: genOverlap, Check: checkOverlap},
 		rp.P[sliceCase]{Name: "slice-arguments", Checks: ev.Pick(4000, 400000) / ev.Shards(), Gen: genSlices, Check: checkSlices},
 	}
